@@ -193,8 +193,8 @@ Theorem C08_chr_no_crash : forall code s, site_chr code <> Crash s.
 Proof. exact site_chr_no_crash. Qed.
 Print Assumptions C08_chr_no_crash.
 
-(* TABLE.index: in .rad50 inside try/except ValueError, whatever str.upper() returned ... *)
-Theorem C08_rad50_char_no_crash : forall (u : list N) s, site_rad50_char u <> Crash s.
+(* TABLE.index: in .rad50 inside try/except ValueError, for every code point (non-ASCII ones raise ValueError explicitly) ... *)
+Theorem C08_rad50_char_no_crash : forall (c : N) s, site_rad50_char c <> Crash s.
 Proof. exact site_rad50_char_no_crash. Qed.
 Print Assumptions C08_rad50_char_no_crash.
 (* ... and after ^R only on characters the (case-sensitive, explicitly listed) regex admits *)
@@ -250,7 +250,7 @@ Theorem C08_no_crash_partial :
   (forall v s, pack_word v <> Crash s /\ pack_byte v <> Crash s /\ pack_dword v <> Crash s /\
                ascii_chunk v <> Crash s /\ pack_relative v <> Crash s) /\
   (forall code s, site_chr code <> Crash s) /\
-  (forall (u : list N) s, site_rad50_char u <> Crash s) /\
+  (forall (c : N) s, site_rad50_char c <> Crash s) /\
   (forall (chars : list N) s, Forall (fun c => nmem c rad50_literal_class = true) chars -> rad50_literal chars <> Crash s) /\
   (forall prefix cls base (digits : list N) s,
      In (prefix, cls, base) radix_classes -> digits <> [] -> Forall (fun c => In c cls) digits -> py_int digits base <> Crash s) /\
